@@ -231,6 +231,7 @@ def c08(prop, tier):
     res = run_core(ck, prop, 'log', tier, small=small, extra={'windows': table}, **sizes(tier))
     ck.extra['window_queries'] = res.get('stats', {}).get('window_queries', 0)
     ck.extra['window_table_rows'] = len(table)
+    ck.extra['writes_in_the_middle_of_a_merge'] = res.get('stats', {}).get('writes_in_the_middle_of_a_merge', 0)
     return ck.finish()
 
 
